@@ -57,17 +57,39 @@ Section GenEqMC.
     rewrite <- (mc_with_ext _ _ _ _ _ _ _ mcInterpolate_eq Triangle3_Degenerate_eq).
     unfold rg_render_mcToTriangles, mc_to_triangles_with, mc_index. cbv beta iota delta [sel8].
     generalize (@rg_render_mcInterpolate O) (@rg_sdf_Triangle3_Degenerate O). intros F D.
-    match goal with |- context [zfor 0%Z 8%Z ?f 0%Z] => set (idx := zfor 0%Z 8%Z f 0%Z) end.
+    autounfold with rg_helpers.
+    (* the loop computing the configuration index: the one loop whose state is an integer *)
+    match goal with
+    | |- context [@zfor Z ?lo ?hi ?f ?s] => set (idx := @zfor Z lo hi f s)
+    | |- context [@fold_left Z ?B ?f ?l ?s] => set (idx := @fold_left Z B f l s)
+    end.
     assert (IDX : idx = Z.of_N (cfg_of_bools (v0 <? x) (v1 <? x) (v2 <? x) (v3 <? x) (v4 <? x) (v5 <? x) (v6 <? x) (v7 <? x))).
     { subst idx. cbv -[oltb o0].
-      destruct (oltb O v0 x), (oltb O v1 x), (oltb O v2 x), (oltb O v3 x), (oltb O v4 x), (oltb O v5 x), (oltb O v6 x), (oltb O v7 x); reflexivity. }
+      destruct (oltb O v0 x), (oltb O v1 x), (oltb O v2 x), (oltb O v3 x), (oltb O v4 x), (oltb O v5 x), (oltb O v6 x), (oltb O v7 x);
+        first [ reflexivity | fail 1 "TRANSL_render_mcToTriangles: the configuration index is not the sum of 1<<i over the corners with v[i] < x" ]. }
     clearbody idx. subst idx.
     (* the triangle loop collects the non-degenerate triangles: a filter *)
     cbv zeta.
     (* (when the loop is written differently the configurations are still compared, more slowly) *)
-    try (erewrite (zfor_collect _ _ _ (fun t => negb (D t (o0 O)))) by (intros; reflexivity)).
+    try first [ erewrite (zfor_collect _ _ _ (fun t => negb (D t (o0 O)))) by (intros; reflexivity)
+              | erewrite (zfor_collect_not _ _ _ (fun t => D t (o0 O))) by (intros; reflexivity) ].
     destruct (oltb O v0 x), (oltb O v1 x), (oltb O v2 x), (oltb O v3 x).
     all: destruct (oltb O v4 x), (oltb O v5 x), (oltb O v6 x), (oltb O v7 x).
     all: mc_case D.
+  Qed.
+
+  (* the same for corner positions / values given as any lists of eight elements (built by a literal, a
+     loop, a helper) *)
+  Lemma mcToTriangles_list_eq : forall (P : list V3) (V : list T) (x : T),
+      length P = 8%nat -> length V = 8%nat ->
+      rg_render_mcToTriangles P V x =
+      mc_to_triangles (sel8 (znth 0 P v3zero) (znth 1 P v3zero) (znth 2 P v3zero) (znth 3 P v3zero)
+                            (znth 4 P v3zero) (znth 5 P v3zero) (znth 6 P v3zero) (znth 7 P v3zero))
+                      (sel8 (znth 0 V (o0 O)) (znth 1 V (o0 O)) (znth 2 V (o0 O)) (znth 3 V (o0 O))
+                            (znth 4 V (o0 O)) (znth 5 V (o0 O)) (znth 6 V (o0 O)) (znth 7 V (o0 O))) x.
+  Proof.
+    intros P V x HP HV.
+    do 9 (destruct P as [|? P]; try discriminate HP). do 9 (destruct V as [|? V]; try discriminate HV).
+    apply mcToTriangles_eq.
   Qed.
 End GenEqMC.
